@@ -29,6 +29,7 @@
 
 
 #include <xalanc/Include/STLHelper.hpp>
+#include <xalanc/Include/XalanMemMgrAutoPtr.hpp>
 
 
 
@@ -132,8 +133,17 @@ XPathEnvSupportDefault::updateFunctionTable(
         // 0, then add a clone of the function.
         if (function != 0)
         {
-            theTable[theNamespace][functionName] =
-                function->clone(theTable.getMemoryManager());
+            // Clone first: operator[] creates the entry, and a failed
+            // clone must not leave an entry that holds a null pointer.
+            MemoryManager&  theManager = theTable.getMemoryManager();
+
+            XalanMemMgrAutoPtr<Function>    theClone(
+                                                theManager,
+                                                function->clone(theManager));
+
+            theTable[theNamespace][functionName] = theClone.get();
+
+            theClone.release();
         }
     }
     else
@@ -149,15 +159,28 @@ XPathEnvSupportDefault::updateFunctionTable(
             // 0, then add a clone of the function.
             if (function != 0)
             {
-                (*i).second[functionName] = function->clone(theTable.getMemoryManager());
+                MemoryManager&  theManager = theTable.getMemoryManager();
+
+                XalanMemMgrAutoPtr<Function>    theClone(
+                                                    theManager,
+                                                    function->clone(theManager));
+
+                (*i).second[functionName] = theClone.get();
+
+                theClone.release();
             }
         }
         else
         {
-            // Found it, so delete the function...
-            const_cast<Function*>((*j).second)->~Function();
-
             MemoryManager&  theManager = theTable.getMemoryManager();
+
+            // Found it.  Clone the replacement, if any, before the old
+            // function is deleted, so a failed clone leaves the entry intact.
+            const Function* const   theClone =
+                function == 0 ? 0 : function->clone(theManager);
+
+            // Delete the old function...
+            const_cast<Function*>((*j).second)->~Function();
 
             theManager.deallocate((void*)(*j).second);
 
@@ -166,7 +189,7 @@ XPathEnvSupportDefault::updateFunctionTable(
             if (function != 0)
             {
                 // Update it...
-                (*j).second = function->clone(theTable.getMemoryManager());
+                (*j).second = theClone;
             }
             else
             {
